@@ -154,4 +154,7 @@ NoDataRace == ~race
 
 \* bound on message histories (state constraint in weak configs)
 MsgBound(n) == \A x \in Locs : Len(hist[x]) <= n
+MsgBound4 == MsgBound(4)
+MsgBound5 == MsgBound(5)
+MsgBound6 == MsgBound(6)
 =============================================================================
